@@ -24,9 +24,16 @@ import Glom.Lemmas.C05Spine
                           stops): they follow the path of the error — see the statement;
     c05_spine             the same for the root call, against `callsOf` / `spine`;
     c05_first_row         clause (a);
-    c05_last_row_partial  clause (c) (the last row is the call that raised) when no other error was
-                          raised during the evaluation, and
-    c05_last_row_counterexample   why not in general (`glom({}, Not(Not('x')))`);
+    c05_rows_show_errors  every row of the loop after the first shows an error (the repaired
+                          `_unpack_stack`, glom effa985, does not descend into a last child that
+                          returned normally);
+    c05_last_row          clause (c): the last row is a call that raised and shows its own error —
+                          with `c05_spine`: the innermost call that raised the root error, or its
+                          only (caught) failed branch shown linearly below it, or the row at which
+                          the descent stops to show branches, the last of which really raised;
+    c05_last_row_only_error   … the row that shows the root error, when no other error was raised;
+    c05_last_row_counterexample   the loop BEFORE the repair (`unpackLoopOld`) listed a call that
+                          returned normally below the call that raised (`glom({}, Not(Not('x')))`);
     c05_branches          clause (d): the branches of a row are the CHILD_ERRORS of its frame (by
                           `c05_frames`: the heads of the chain segments in which a step raised),
                           unless that is the single LAST_CHILD_SCOPE (then the rows continue into it);
@@ -100,9 +107,11 @@ theorem c05_reference_spine (t : Tree) (h : onePath t.err t.kids = true) :
         branches and its frame is flagged NO_PYFRAME: it is a completed earlier step of a chain
         (a call that was continued by a chained step; the chain's last step is the next of these
         calls) — these are the only extra rows before the call that raised;
-      * no row of `B` shows `e` (rows *below* the call that raised `e`: its last sub-evaluation
-        returned or was caught, and the descent through LAST_CHILD_SCOPE goes on into it, see
-        `c05_last_row_counterexample`); `B` is a prefix, by frames, of what the loop produced;
+      * no row of `B` shows `e`; `B` are rows *below* the call that raised `e`, and `B ≠ []` only
+        if that call's row shows no branches: its only failed sub-evaluation segment is its last
+        one, which it caught, and `_unpack_stack` shows a single failed branch linearly.  Every row
+        of `B` showed an error before push-down (`c05_rows_show_errors`), the last one still does,
+        and it is that call's own outcome (`c05_last_row`): never a call that returned normally;
       * either all of `sp` has been listed (`k = sp.length`: the last row of `A` is the call that
         raised `e`), or the descent stopped at a call that shows its failed branches, `B = []`, and
         the LAST of these branches is a frame `h'` that again is on the path of the error, with the
